@@ -11,6 +11,8 @@ import (
 	. "github.com/vektah/gqlparser/v2/validator"
 )
 
+import "github.com/vektah/gqlparser/v2/verifhook"
+
 var OverlappingFieldsCanBeMergedRule = Rule{
 	Name: "OverlappingFieldsCanBeMerged",
 	RuleFunc: func(observers *Events, addError AddErrFunc) {
@@ -276,6 +278,7 @@ func (m *overlappingFieldsCanBeMergedManager) findConflictsWithinSelectionSet(se
 }
 
 func (m *overlappingFieldsCanBeMergedManager) collectConflictsBetweenFieldsAndFragment(conflicts *conflictMessageContainer, areMutuallyExclusive bool, fieldsMap *sequentialFieldsMap, fragmentSpread *ast.FragmentSpread) {
+	verifhook.Step(verifhook.SiteOverlapFieldsAndFragment)
 	if m.comparedFragments[fragmentSpread.Name] {
 		return
 	}
@@ -310,6 +313,7 @@ func (m *overlappingFieldsCanBeMergedManager) collectConflictsBetweenFieldsAndFr
 func (m *overlappingFieldsCanBeMergedManager) collectConflictsBetweenFragments(conflicts *conflictMessageContainer, areMutuallyExclusive bool, fragmentSpreadA *ast.FragmentSpread, fragmentSpreadB *ast.FragmentSpread) {
 	var check func(fragmentSpreadA *ast.FragmentSpread, fragmentSpreadB *ast.FragmentSpread)
 	check = func(fragmentSpreadA *ast.FragmentSpread, fragmentSpreadB *ast.FragmentSpread) {
+		verifhook.Step(verifhook.SiteOverlapFragments)
 		if fragmentSpreadA.Name == fragmentSpreadB.Name {
 			return
 		}
@@ -418,6 +422,7 @@ func (m *overlappingFieldsCanBeMergedManager) collectConflictsBetween(conflicts 
 }
 
 func (m *overlappingFieldsCanBeMergedManager) findConflict(parentFieldsAreMutuallyExclusive bool, fieldA *ast.Field, fieldB *ast.Field) *ConflictMessage {
+	verifhook.Step(verifhook.SiteOverlapFindConflict)
 	if fieldA.ObjectDefinition == nil || fieldB.ObjectDefinition == nil {
 		return nil
 	}
@@ -534,6 +539,7 @@ func doTypesConflict(walker *Walker, type1 *ast.Type, type2 *ast.Type) bool {
 }
 
 func getFieldsAndFragmentNames(selectionSet ast.SelectionSet) (*sequentialFieldsMap, []*ast.FragmentSpread) {
+	verifhook.Step(verifhook.SiteOverlapCollect)
 	fieldsMap := sequentialFieldsMap{
 		data: make(map[string][]*ast.Field),
 	}
